@@ -28,6 +28,7 @@
      | like E E | nlike E E | isnull E | notnull E | btw E E E | nbtw E E E | in<k> E E×k | nin<k> E E×k
      | case<k> (E E)×k (else E | noelse)            searched CASE: k pairs condition, result
      | casex<k> E (E E)×k (else E | noelse)         simple CASE: operand, k pairs value, result
+     | upper E | lower E | length E | ltrim E | rtrim E | cat E E      string functions, `a || b`
 
   answer := OUT (" ; " OUT)*     one per statement
   OUT    := "Rset:" ROWS      no ORDER BY: rows in canonical (sorted) order
@@ -74,6 +75,8 @@ def toP : Expr → PExpr
   | .inList neg e xs => .inList neg (toP e) (toPList xs)
   | .caseWhen _ => .null      -- not in the parser model: `reparse` leaves expressions with CASE alone
   | .caseOf _ _ => .null
+  | .strFn _ _ => .null       -- function calls neither
+  | .concat a b => .bin .concat (toP a) (toP b)
 def toPList : List Expr → List PExpr
   | [] => []
   | e :: es => toP e :: toPList es
@@ -104,7 +107,7 @@ def fromP : PExpr → Option Expr
       | .like => some (.like false x y) | .notlike => some (.like true x y)
       | .is => (match y with | .lit .null => some (.isNull false x) | _ => none)
       | .isnot => (match y with | .lit .null => some (.isNull true x) | _ => none)
-      | .concat => none
+      | .concat => some (.concat x y)
     | _, _ => none
   | .between neg e lo hi =>
     match fromP e, fromP lo, fromP hi with
@@ -123,9 +126,9 @@ end
 
 mutual
 def hasCase : Expr → Bool
-  | .caseWhen _ | .caseOf _ _ => true
+  | .caseWhen _ | .caseOf _ _ | .strFn _ _ => true
   | .not e | .neg e | .pos e | .isNull _ e => hasCase e
-  | .and a b | .or a b | .cmp _ a b | .arith _ a b | .like _ a b => hasCase a || hasCase b
+  | .and a b | .or a b | .cmp _ a b | .arith _ a b | .like _ a b | .concat a b => hasCase a || hasCase b
   | .between _ a b c => hasCase a || hasCase b || hasCase c
   | .inList _ a xs => hasCase a || hasCaseList xs
   | _ => false
@@ -237,6 +240,12 @@ def pExpr : Nat → P Expr
     | "nlike" => (pExpr fuel ws).bind fun (a, r) => (pExpr fuel r).map fun (b, r) => (.like true a b, r)
     | "isnull" => (pExpr fuel ws).map fun (a, r) => (.isNull false a, r)
     | "notnull" => (pExpr fuel ws).map fun (a, r) => (.isNull true a, r)
+    | "upper" => (pExpr fuel ws).map fun (a, r) => (.strFn .upper a, r)
+    | "lower" => (pExpr fuel ws).map fun (a, r) => (.strFn .lower a, r)
+    | "length" => (pExpr fuel ws).map fun (a, r) => (.strFn .length a, r)
+    | "ltrim" => (pExpr fuel ws).map fun (a, r) => (.strFn .ltrim a, r)
+    | "rtrim" => (pExpr fuel ws).map fun (a, r) => (.strFn .rtrim a, r)
+    | "cat" => (pExpr fuel ws).bind fun (a, r) => (pExpr fuel r).map fun (b, r) => (.concat a b, r)
     | "btw" => (pExpr fuel ws).bind fun (a, r) => (pExpr fuel r).bind fun (b, r) =>
         (pExpr fuel r).map fun (c, r) => (.between false a b c, r)
     | "nbtw" => (pExpr fuel ws).bind fun (a, r) => (pExpr fuel r).bind fun (b, r) =>
